@@ -254,14 +254,14 @@ func modelValues(rp *oblReport, probes []probe, timeoutS int) map[string]string 
 	if len(rp.obl.Using) > 0 {
 		extra = rp.obl.ctx.lemmaAxioms(rp.obl.Using, nil)
 	}
-	q := rp.obl.query(extra, 0)
+	q := rp.obl.queryVariant(extra, 1)
 	q = strings.Replace(q, "(get-model)\n", "", 1)
 	var ts []string
 	for _, p := range probes {
 		ts = append(ts, p.Term)
 	}
 	q += "(get-value (" + strings.Join(ts, " ") + "))\n"
-	solver := rp.Solver
+	solver := strings.TrimSuffix(rp.Solver, "/rec")
 	if solver == "" {
 		solver = "z3-new"
 	}
@@ -546,7 +546,7 @@ func (g *goBuilder) testSource(fn *ssa.Function, args []string, rp *oblReport) s
 		b.WriteString("\t" + p + "\n")
 	}
 	for i, p := range fn.Params {
-		b.WriteString(fmt.Sprintf("\t%s := %s\n\t_ = %s\n", p.Name(), args[i], p.Name()))
+		b.WriteString(fmt.Sprintf("\tvar %s %s = %s\n\t_ = %s\n", p.Name(), g.typeStr(p.Type()), args[i], p.Name()))
 	}
 	var names []string
 	for _, p := range fn.Params {
